@@ -119,7 +119,7 @@ MUTANTS = [
     ('C10', 'select-no-interest-filter', (R, POLLERS, "            if self.isWriting(sock):\n                self.fire(_write(sock), self.getTarget(sock))", "            self.fire(_write(sock), self.getTarget(sock))"), 'C10.d'),
     ('C10', 'epoll-wrong-bit', (R, POLLERS, "        if fd in self._write:\n            mask = mask | select.EPOLLOUT", "        if fd in self._read:\n            mask = mask | select.EPOLLOUT"), 'C10.b'),
     # ---- C11
-    ('C11', 'revert-client-transient', ('revert', '06e65c5'), 'C11.a'),
+    ('C11', 'client-transient-not-requeued', (R, SOCKETS, "                # socket says EAGAIN): nothing was sent, try again later\n                self._buffer.appendleft(data)\n", "                # socket says EAGAIN): nothing was sent, try again later\n                pass\n"), 'C11.a'),
     ('C11', 'revert-file-transient', ('revert', 'f95bcba'), 'C11.a'),
     ('C11', 'tail-appended-right', (R, SOCKETS, "                self._buffers[sock].appendleft(data[nbytes:])", "                self._buffers[sock].append(data[nbytes:])"), 'C11'),
     ('C11', 'close-not-deferred', (R, SOCKETS, "            if not self._buffers.get(sock):\n                self._close(sock)\n            elif sock not in self._closeq:", "            if True:\n                self._close(sock)\n            elif sock not in self._closeq:"), 'C11.c'),
@@ -227,6 +227,10 @@ MUTANTS = [
     ('C20', 'revert-default-encoder', ('revert', '7be9dce'), 'C20.a'),
     ('C20', 'revert-fingerprint-separator', ('revert', '010b2e3'), 'C20.d'),
     ('C20', 'revert-trust-order', ('revert', '0d245c4'), 'C20.f'),
+    ('C11', 'revert-late-client-write', ('revert', 'e3c7f4f'), 'C11.f'),
+    ('C11', 'revert-client-fatal-send', ('revert', 'd14a029'), 'C11.a'),
+    ('C11', 'revert-file-eof-discard', ('revert', '47ec135'), 'C11.d'),
+    ('C11', 'revert-starttls-drain', ('revert', 'cb57a86'), 'C11.c'),
 ]
 
 # behaviour-preserving edits: the check of the property must stay silent
